@@ -75,6 +75,8 @@ def main(tier, seed, replay=None):
         rep.violation(p, "the verification harness does not build against the current tree", no_input=True)
         return rep.finish()
     lean_part(rep, "C19")
+    from . import facts
+    fact_msgs = facts.facts_for(rep, "C19")
     rnd = random.Random(seed)
     if replay:
         with open(replay) as f:
@@ -247,4 +249,5 @@ def main(tier, seed, replay=None):
         what, grp = mism[0]
         p = write_replay("C19", 10, ["the Lean functions and the implementation disagree (%d values): %s" % (len(mism), what)], "\n".join(grp) + "\n")
         rep.violation(p, "model/implementation disagreement on %d values: %s" % (len(mism), what), no_input=True)
+    facts.report_fact_failures(rep, "C19", fact_msgs)
     return rep.finish()
